@@ -12,11 +12,23 @@ package cluster_test
 //	Apply   Service.ApplyRetentionBoundary (any boundary, bounded trims)
 //	Read    layer "store":   store.ChannelStore.ReadCommitted, MinSeq / MaxSeq passed explicitly
 //	        layer "service": Service.ReadCommittedBatch (the caller computes floor and cap)
+//	        layer "fwd":     Service.ReadCommittedBatch issued on a second, NON-leader Service
+//	                         (node 2) and forwarded to the leader over the package's in-process
+//	                         network (clusternet.LocalNetwork + TransportClient +
+//	                         RegisterServiceHandlers), with the leader's own metadata lookup
+//	                         answering or answering not-found (ev.miss) and the origin holding
+//	                         the current or an older record (ev.oret)
 //	Head    Service.ReadConversationHead (newest ordinary row under the live committed watermark)
+//	HeadF   ReadConversationHead / ReadConversationHeads issued on the non-leader Service
+//	SyncF   SyncMessages over the non-leader Service (overlay build only, as Sync)
 //	Last    Service.ReadChannelLastVisible (replay only; known finding, see sigLastVisible)
 //	Sync    internal/infra/cluster ChannelMessageReader.SyncMessages (only in the overlay build,
 //	        see overlay/retention; `syncRead` is nil in the runner-module build and Sync steps
 //	        are skipped there)
+//
+// A case starts on a fresh channel or on a runtime LOADED from a store prepared through the
+// exported store API (cfg.pre: n rows, checkpoint c, adopted boundary b, SyncOnce row k): the state
+// of a leader with a durable tail above its checkpointed watermark.
 //
 // Observation after every step: Service.RetentionView, the store's own Load / LoadRetentionState
 // and a raw scan of the physically present rows.
@@ -48,6 +60,8 @@ import (
 	"github.com/WuKongIM/WuKongIM/pkg/channel/store"
 	"github.com/WuKongIM/WuKongIM/pkg/channel/transport"
 	"github.com/WuKongIM/WuKongIM/pkg/cluster/channels"
+	clusternet "github.com/WuKongIM/WuKongIM/pkg/cluster/net"
+	metadb "github.com/WuKongIM/WuKongIM/pkg/db/meta"
 	"github.com/WuKongIM/WuKongIM/internal/zzverif/kit"
 )
 
@@ -65,6 +79,12 @@ const (
 	// Known finding: Service.ReadChannelLastVisible answers with the newest DURABLE row: no
 	// committed cap, no SyncOnce filter, no store-adopted boundary.
 	sigLastVisible = "C10:last-visible-read-ignores-committed-cap"
+
+	// Finding: the RPC codec of pkg/cluster/channels (codec.go appendMessage / readMessage) does
+	// not carry Message.SyncOnce, so every committed read served by a remote leader hands the
+	// origin SyncOnce / barrier rows with the flag cleared, and the ordinary reader on that node
+	// (message_reader.go syncedMessagesFromChannel) returns them.
+	sigFwdSyncOnce = "C10:forwarded-read-drops-sync-once-flag"
 )
 
 // syncRead is installed by the overlay build (message_reader.go lives in an internal package).
@@ -82,13 +102,19 @@ func infraf(format string, a ...any) error { return errInfra{fmt.Sprintf(format,
 // ---- the real runtime ------------------------------------------------------------------
 
 type metaSource struct {
-	mu    sync.Mutex
-	metas map[ch.ChannelID]ch.Meta
+	mu     sync.Mutex
+	metas  map[ch.ChannelID]ch.Meta
+	hidden map[ch.ChannelID]error // lookups answered with this (not-found) error: a lagging metadata view
+	misses int                    // lookups answered from `hidden`
 }
 
 func (m *metaSource) ResolveChannelMeta(_ context.Context, id ch.ChannelID) (ch.Meta, error) {
 	m.mu.Lock()
 	defer m.mu.Unlock()
+	if err := m.hidden[id]; err != nil {
+		m.misses++
+		return ch.Meta{}, err
+	}
 	meta, ok := m.metas[id]
 	if !ok {
 		return ch.Meta{}, ch.ErrChannelNotFound
@@ -102,17 +128,75 @@ func (m *metaSource) set(meta ch.Meta) {
 	m.mu.Unlock()
 }
 
+// hide makes lookups of id fail with err (nil: answer again); it returns the lookups missed so far.
+func (m *metaSource) hide(id ch.ChannelID, err error) int {
+	m.mu.Lock()
+	defer m.mu.Unlock()
+	if err == nil {
+		delete(m.hidden, id)
+	} else {
+		m.hidden[id] = err
+	}
+	return m.misses
+}
+
+func newMetaSource() *metaSource {
+	return &metaSource{metas: map[ch.ChannelID]ch.Meta{}, hidden: map[ch.ChannelID]error{}}
+}
+
+// countingForward is the origin's forward client: the real TransportClient, counting the read
+// calls that really left the node.
+type countingForward struct {
+	*channels.TransportClient
+	mu    sync.Mutex
+	reads int
+}
+
+func (c *countingForward) count() {
+	c.mu.Lock()
+	c.reads++
+	c.mu.Unlock()
+}
+
+func (c *countingForward) sent() int {
+	c.mu.Lock()
+	defer c.mu.Unlock()
+	return c.reads
+}
+
+func (c *countingForward) ForwardCommittedReads(ctx context.Context, node ch.NodeID, req channels.CommittedReadsRequest) (channels.CommittedReadsResponse, error) {
+	c.count()
+	return c.TransportClient.ForwardCommittedReads(ctx, node, req)
+}
+
+func (c *countingForward) ForwardLastVisible(ctx context.Context, node ch.NodeID, req channels.LastVisibleRequest) (channels.LastVisibleResponse, error) {
+	c.count()
+	return c.TransportClient.ForwardLastVisible(ctx, node, req)
+}
+
+func (c *countingForward) ForwardConversationHeads(ctx context.Context, node ch.NodeID, req channels.ConversationHeadsRequest) (channels.ConversationHeadsResponse, error) {
+	c.count()
+	return c.TransportClient.ForwardConversationHeads(ctx, node, req)
+}
+
 // world is one runtime + store kind shared by all channels of a run (one channel per case).
+//
+// The leader (node 1) is `svc`; `origin` (node 2) is a second real Service that leads nothing, has
+// its own (empty) store and its own metadata view `osrc`, and reaches the leader through the
+// in-process network: every read issued on it is forwarded.
 type world struct {
 	kind    string
 	factory store.Factory
 	svc     *channels.Service
 	src     *metaSource
+	origin  *channels.Service
+	osrc    *metaSource
+	fwd     *countingForward
 	closers []func()
 }
 
 func newWorld(kind, dir string) (*world, error) {
-	w := &world{kind: kind, src: &metaSource{metas: map[ch.ChannelID]ch.Meta{}}}
+	w := &world{kind: kind, src: newMetaSource(), osrc: newMetaSource()}
 	switch kind {
 	case "memory":
 		w.factory = store.NewMemoryFactory()
@@ -129,10 +213,22 @@ func newWorld(kind, dir string) (*world, error) {
 		return nil, err
 	}
 	w.svc = svc
+	network := clusternet.NewLocalNetwork()
+	channels.RegisterServiceHandlers(network, 1, svc)
+	w.fwd = &countingForward{TransportClient: channels.NewTransportClient(network)}
+	origin, err := channels.NewService(channels.Config{LocalNode: 2, ReactorCount: 1, MailboxSize: 1024,
+		Store: store.NewMemoryFactory(), MetaSource: w.osrc, Forward: w.fwd})
+	if err != nil {
+		return nil, err
+	}
+	w.origin = origin
 	return w, nil
 }
 
 func (w *world) close() {
+	if w.origin != nil {
+		_ = w.origin.Close()
+	}
 	if w.svc != nil {
 		_ = w.svc.Close()
 	}
@@ -155,6 +251,50 @@ type sut struct {
 	acked  map[ch.NodeID]uint64 // progress the leader was told (O1 diagnostic)
 }
 
+// preload is cfg.pre of the specification: the store the leader's runtime is loaded from.
+type preload struct{ n, c, b, k uint64 }
+
+func preOf(cfg map[string]any) preload {
+	p := kit.Map(cfg, "pre")
+	return preload{n: uint64(kit.Int(p, "n")), c: uint64(kit.Int(p, "c")), b: uint64(kit.Int(p, "b")), k: uint64(kit.Int(p, "k"))}
+}
+
+func (p preload) json() map[string]any {
+	return map[string]any{"n": p.n, "c": p.c, "b": p.b, "k": p.k}
+}
+
+// prepare writes the store a runtime will be loaded from, through the exported store API only:
+// n durable rows (row k SyncOnce), checkpoint c, adopted boundary b.
+func (s *sut) prepare(p preload) error {
+	if p.n == 0 {
+		return nil
+	}
+	return s.withStore(func(cs store.ChannelStore) error {
+		ctx, cancel := ctxCall()
+		defer cancel()
+		recs := make([]ch.Record, 0, p.n)
+		for q := uint64(1); q <= p.n; q++ {
+			msgSeq++
+			recs = append(recs, ch.Record{ID: msgSeq, FromUID: "u1", ClientMsgNo: fmt.Sprintf("m%d", msgSeq),
+				Payload: []byte{byte(msgSeq), 1, 2}, SizeBytes: 3, SyncOnce: q == p.k})
+		}
+		if _, err := cs.AppendLeader(ctx, store.AppendLeaderRequest{Records: recs}); err != nil {
+			return infraf("prepare: AppendLeader: %v", err)
+		}
+		if p.c > 0 {
+			if err := cs.StoreCheckpoint(ctx, ch.Checkpoint{HW: p.c}); err != nil {
+				return infraf("prepare: StoreCheckpoint(%d): %v", p.c, err)
+			}
+		}
+		if p.b > 0 {
+			if _, err := cs.AdoptRetentionBoundary(ctx, p.b, ch.RetentionCursorCommitted); err != nil {
+				return infraf("prepare: AdoptRetentionBoundary(%d): %v", p.b, err)
+			}
+		}
+		return nil
+	})
+}
+
 func nodeIDs(v []any) []ch.NodeID {
 	out := make([]ch.NodeID, 0, len(v))
 	for _, x := range v {
@@ -167,12 +307,15 @@ func ctxCall() (context.Context, context.CancelFunc) {
 	return context.WithTimeout(context.Background(), callWait)
 }
 
-func newSUT(w *world, isr []ch.NodeID, minISR int) (*sut, error) {
+func newSUT(w *world, isr []ch.NodeID, minISR int, pre preload) (*sut, error) {
 	caseSeq++
 	id := ch.ChannelID{ID: fmt.Sprintf("c10-%s-%d", w.kind, caseSeq), Type: 2}
 	s := &sut{w: w, id: id, key: ch.ChannelKeyForID(id), minISR: minISR, acked: map[ch.NodeID]uint64{}}
 	s.meta = ch.Meta{Key: s.key, ID: id, Epoch: 1, LeaderEpoch: 1, RouteGeneration: 1, Leader: 1, Replicas: []ch.NodeID{1, 2, 3},
-		ISR: isr, MinISR: minISR, Status: ch.StatusActive}
+		ISR: isr, MinISR: minISR, Status: ch.StatusActive, RetentionThroughSeq: pre.b}
+	if err := s.prepare(pre); err != nil {
+		return nil, err
+	}
 	w.src.set(s.meta)
 	if err := w.svc.ApplyMeta(s.meta); err != nil {
 		return nil, infraf("ApplyMeta(initial): %v", err)
@@ -273,6 +416,52 @@ func (s *sut) committedCap() (uint64, error) {
 		return nil
 	})
 	return c, err
+}
+
+var notFoundTurn int
+
+// forwarded issues one read on the non-leader Service.  The origin's metadata view is the
+// authoritative record with retention oret (current or older); with miss the leader's own lookup
+// of the channel answers not-found for the duration of the call (its slot metadata lags), so the
+// leader has only what the origin sent.  The call must really leave the origin, and with miss the
+// leader's lookup must really have failed: anything else is harness trouble.
+func (s *sut) forwarded(miss bool, oret uint64, call func(origin *channels.Service, ctx context.Context) error) error {
+	cur, err := s.w.src.ResolveChannelMeta(context.Background(), s.id)
+	if err != nil {
+		return infraf("forwarded: leader record: %v", err)
+	}
+	if oret > cur.RetentionThroughSeq || (miss && oret != cur.RetentionThroughSeq) {
+		return infraf("forwarded: origin retention %d does not fit the authoritative record (%d, miss=%v)", oret, cur.RetentionThroughSeq, miss)
+	}
+	o := cur
+	o.RetentionThroughSeq = oret
+	s.w.osrc.set(o)
+	sent, missed := s.w.fwd.sent(), 0
+	if miss {
+		notFoundTurn++
+		nf := error(ch.ErrChannelNotFound)
+		if notFoundTurn%2 == 0 {
+			nf = metadb.ErrNotFound
+		}
+		missed = s.w.src.hide(s.id, nf)
+	}
+	ctx, cancel := ctxCall()
+	err = call(s.w.origin, ctx)
+	cancel()
+	after := missed
+	if miss {
+		after = s.w.src.hide(s.id, nil)
+	}
+	if err != nil {
+		return err
+	}
+	if s.w.fwd.sent() != sent+1 {
+		return infraf("forwarded: the origin sent %d requests to the leader instead of 1", s.w.fwd.sent()-sent)
+	}
+	if miss && after == missed {
+		return infraf("forwarded: the leader did not look its metadata up")
+	}
+	return nil
 }
 
 type outcome struct {
@@ -420,6 +609,23 @@ func (s *sut) apply(rep *kit.Report, ev map[string]any) (outcome, error) {
 				return outcome{}, infraf("ReadCommittedBatch(%+v): %v / %v", req, err, ierr)
 			}
 			msgs = rs[0].Read.Messages
+		case "fwd":
+			req := store.ReadCommittedRequest{FromSeq: from, MaxSeq: seqOf(kit.Int(ev, "mx")), Limit: lim, Reverse: rev}
+			err := s.forwarded(kit.Bool(ev, "miss"), uint64(kit.Int(ev, "oret")), func(origin *channels.Service, ctx context.Context) error {
+				rs, err := origin.ReadCommittedBatch(ctx, []channels.CommittedRead{{ChannelID: s.id, Request: req}})
+				if err != nil || len(rs) != 1 || rs[0].Err != nil {
+					var ierr error
+					if len(rs) == 1 {
+						ierr = rs[0].Err
+					}
+					return infraf("forwarded ReadCommittedBatch(%+v): %v / %v", req, err, ierr)
+				}
+				msgs = rs[0].Read.Messages
+				return nil
+			})
+			if err != nil {
+				return outcome{}, err
+			}
 		default:
 			return outcome{}, infraf("unknown read layer %q", kit.Str(ev, "layer"))
 		}
@@ -440,6 +646,38 @@ func (s *sut) apply(rep *kit.Report, ev map[string]any) (outcome, error) {
 		return outcome{res: map[string]any{"found": h.Found, "seq": seq, "committed": h.LastCommittedSeq,
 			"retention": h.RetentionThroughSeq}}, nil
 
+	case "HeadF":
+		var h channels.ConversationHead
+		batch := kit.Bool(ev, "batch")
+		err := s.forwarded(kit.Bool(ev, "miss"), uint64(kit.Int(ev, "oret")), func(origin *channels.Service, ctx context.Context) error {
+			if !batch {
+				var e error
+				if h, e = origin.ReadConversationHead(ctx, s.id, "u1"); e != nil {
+					return infraf("forwarded ReadConversationHead: %v", e)
+				}
+				return nil
+			}
+			rs, e := origin.ReadConversationHeads(ctx, []ch.ChannelID{s.id}, "u1")
+			if e != nil || len(rs) != 1 || rs[0].Err != nil {
+				var ierr error
+				if len(rs) == 1 {
+					ierr = rs[0].Err
+				}
+				return infraf("forwarded ReadConversationHeads: %v / %v", e, ierr)
+			}
+			h = rs[0].Head
+			return nil
+		})
+		if err != nil {
+			return outcome{}, err
+		}
+		seq := uint64(0)
+		if h.Found {
+			seq = h.Message.MessageSeq
+		}
+		return outcome{res: map[string]any{"found": h.Found, "seq": seq, "committed": h.LastCommittedSeq,
+			"retention": h.RetentionThroughSeq}}, nil
+
 	case "Last":
 		ctx, cancel := ctxCall()
 		m, found, err := s.w.svc.ReadChannelLastVisible(ctx, s.id, uint64(kit.Int(ev, "after")))
@@ -452,6 +690,27 @@ func (s *sut) apply(rep *kit.Report, ev map[string]any) (outcome, error) {
 			seq = m.MessageSeq
 		}
 		return outcome{res: map[string]any{"found": found, "seq": seq}}, nil
+
+	case "SyncF":
+		if syncRead == nil {
+			return outcome{skipped: true}, nil
+		}
+		var seqs []uint64
+		err := s.forwarded(kit.Bool(ev, "miss"), uint64(kit.Int(ev, "oret")), func(origin *channels.Service, _ context.Context) error {
+			var e error
+			seqs, e = syncRead(origin, s.id, kit.Str(ev, "mode"), uint64(kit.Int(ev, "start")), uint64(kit.Int(ev, "end")), int(kit.Int(ev, "lim")))
+			if e != nil {
+				return infraf("forwarded SyncMessages: %v", e)
+			}
+			return nil
+		})
+		if err != nil {
+			return outcome{}, err
+		}
+		if seqs == nil {
+			seqs = []uint64{}
+		}
+		return outcome{res: map[string]any{"seqs": seqs}}, nil
 
 	case "Sync":
 		if syncRead == nil {
@@ -543,6 +802,29 @@ func reportCapZero(rep *kit.Report, s *sut, ev, res map[string]any, replay any) 
 		kit.JSON(kit.CloneEv(ev)), kit.JSON(res["seqs"])), sigCapZero, replay)
 }
 
+var fwdSyncOnceReported bool
+
+// fwdRead tells the calls whose reply travelled through the forward RPC.
+func fwdRead(ev map[string]any) bool {
+	a := kit.Str(ev, "a")
+	return a == "SyncF" || (a == "Read" && kit.Str(ev, "layer") == "fwd")
+}
+
+func reportFwdSyncOnce(rep *kit.Report, s *sut, ev, res map[string]any, want, replay any) {
+	rep.AddExtra("fwd_sync_once_finding_hits", 1)
+	if kit.Str(ev, "a") == "SyncF" {
+		rep.AddExtra("fwd_sync_once_finding_hits_in_sync_messages", 1) // the ordinary reader returned a SyncOnce row
+	}
+	if fwdSyncOnceReported {
+		return
+	}
+	fwdSyncOnceReported = true
+	rep.ViolateSig(prop, "reply", fmt.Sprintf("store=%s minISR=%d: %s issued on the non-leader node answered %s where the SyncOnce rule "+
+		"gives %s: the forwarded reply carries no SyncOnce flag (pkg/cluster/channels codec.go appendMessage / readMessage), so the "+
+		"origin cannot tell SyncOnce / barrier rows from ordinary ones", s.w.kind, s.minISR, kit.JSON(kit.CloneEv(ev)), kit.JSON(res),
+		kit.JSON(want)), sigFwdSyncOnce, replay)
+}
+
 var lastVisibleReported bool
 
 func reportLastVisible(rep *kit.Report, s *sut, ev, res map[string]any, replay any) {
@@ -570,9 +852,19 @@ func replayAll(rep *kit.Report, worlds map[string]*world, behs []kit.Behaviour) 
 			rep.Infra("behaviour %d: unknown store %q", bi, kit.Str(cfg, "store"))
 			continue
 		}
-		s, err := newSUT(w, nodeIDs(kit.List(cfg, "isr")), int(kit.Int(cfg, "minISR")))
+		s, err := newSUT(w, nodeIDs(kit.List(cfg, "isr")), int(kit.Int(cfg, "minISR")), preOf(cfg))
 		if err != nil {
 			rep.Infra("behaviour %d: %v", bi, err)
+			continue
+		}
+		// the runtime loaded from the prepared store must be in the state the specification starts from
+		if proj, _, err := s.obs(); err != nil {
+			rep.Infra("behaviour %d: %v", bi, err)
+			continue
+		} else if d := kit.Diff(expectedState(b.Steps[0].St), proj); d != "" {
+			rep.Violate(prop, "state", fmt.Sprintf("store=%s after loading the runtime from %s: %s", w.kind, kit.JSON(cfg["pre"]), d),
+				map[string]any{"behaviour": b, "step": 0, "observed_state": proj})
+			rep.Replayed(0)
 			continue
 		}
 		for si, st := range b.Steps[1:] {
@@ -591,6 +883,11 @@ func replayAll(rep *kit.Report, worlds map[string]*world, behs []kit.Behaviour) 
 				if kit.Str(st.Ev, "a") == "Last" && st.Ev["alt"] != nil && kit.Equal(st.Ev["alt"], out.res) {
 					// exactly the answer the specification computes for the known deviation
 					reportLastVisible(rep, s, st.Ev, out.res, cse)
+					continue
+				}
+				if fwdRead(st.Ev) && st.Ev["alt"] != nil && kit.Equal(st.Ev["alt"], out.res) {
+					// exactly the answer the specification computes for the lost SyncOnce flag
+					reportFwdSyncOnce(rep, s, st.Ev, out.res, st.Ev["res"], cse)
 					continue
 				}
 				known, ferr := s.capZeroFinding(st.Ev, out.res, true)
@@ -645,6 +942,11 @@ func expectedState(st any) any {
 //	last-visible  the reproduction of C10:last-visible-read-ignores-committed-cap (known).
 //	floor-vs-cap  a boundary adopted above the committed watermark: floor above cap, nothing
 //	              visible, nothing trimmed; then commit + checkpoint + trim in two requests.
+//	fwd-lagging   reads issued on the non-leader node against a leader loaded from a store with
+//	              five durable rows, boundary 1 and (MinISR 2, 3) checkpoint 3: whole log, latest
+//	              page and conversation head, the leader's metadata lookup answering not-found
+//	              (fallback on what the origin sent) and answering (origin with the oldest
+//	              record); the window is (1, 3], with MinISR 1 (1, 5].
 func scriptedSchedules() []kit.Behaviour {
 	type step = kit.Step
 	st := func(leo, hw, ckpt, ret, local, phys uint64, rows, bars []uint64) map[string]any {
@@ -657,13 +959,19 @@ func scriptedSchedules() []kit.Behaviour {
 		return map[string]any{"leo": leo, "hw": hw, "ckpt": ckpt, "ret": ret, "local": local, "phys": phys, "rows": rows, "bars": bars}
 	}
 	none := map[string]any{"seqs": []uint64{}, "bars": []uint64{}}
-	seqs := func(q ...uint64) map[string]any { return map[string]any{"seqs": q, "bars": []uint64{}} }
+	seqs := func(q ...uint64) map[string]any {
+		if q == nil {
+			q = []uint64{}
+		}
+		return map[string]any{"seqs": q, "bars": []uint64{}}
+	}
 	svc := func(from, mx uint64, lim int, rev bool, res map[string]any) map[string]any {
 		return kit.Ev("Read", "layer", "service", "from", from, "mn", 0, "mx", mx, "lim", lim, "rev", rev, "res", res)
 	}
 	var out []kit.Behaviour
 	for _, kind := range []string{"memory", "messagedb"} {
-		init := step{Ev: map[string]any{"a": "Init", "cfg": map[string]any{"store": kind, "isr": []uint64{1, 2}, "minISR": 2}}}
+		init := step{Ev: map[string]any{"a": "Init", "cfg": map[string]any{"store": kind, "isr": []uint64{1, 2}, "minISR": 2,
+			"pre": preload{}.json()}}, St: st(0, 0, 0, 0, 0, 0, nil, nil)}
 		s2 := st(2, 0, 0, 0, 0, 0, []uint64{1, 2}, nil)
 		s2h := st(2, 1, 0, 0, 0, 0, []uint64{1, 2}, nil)
 		out = append(out, kit.Behaviour{Steps: []step{init,
@@ -714,6 +1022,60 @@ func scriptedSchedules() []kit.Behaviour {
 			{Ev: kit.Ev("Read", "layer", "store", "from", 0, "mn", 3, "mx", 3, "lim", 10, "rev", false, "res", seqs(3)), St: s3(3, 2, 2, 2, 2, []uint64{3})},
 		}})
 	}
+	fwd := func(from, mx uint64, lim int, rev, miss bool, oret uint64, res map[string]any) map[string]any {
+		return kit.Ev("Read", "layer", "fwd", "from", from, "mn", 0, "mx", mx, "lim", lim, "rev", rev, "miss", miss, "oret", oret, "res", res)
+	}
+	for _, kind := range []string{"memory", "messagedb"} {
+		for minISR := 1; minISR <= 3; minISR++ {
+			pre, top := preload{n: 5, c: 3, b: 1}, uint64(3)
+			if minISR == 1 {
+				pre, top = preload{n: 5, c: 5, b: 1}, 5
+			}
+			s0 := st(5, pre.c, pre.c, 1, 1, 0, []uint64{1, 2, 3, 4, 5}, nil)
+			var up, down, tail []uint64
+			for q := uint64(2); q <= top; q++ {
+				up = append(up, q)
+				down = append([]uint64{q}, down...)
+				if q >= 4 {
+					tail = append(tail, q)
+				}
+			}
+			head := func(miss bool, oret uint64, batch bool) step {
+				return step{Ev: kit.Ev("HeadF", "miss", miss, "oret", oret, "batch", batch,
+					"res", map[string]any{"found": true, "seq": top, "committed": top, "retention": 1}), St: s0}
+			}
+			steps := []step{{Ev: map[string]any{"a": "Init", "cfg": map[string]any{"store": kind, "isr": []uint64{1, 2, 3},
+				"minISR": minISR, "pre": pre.json()}}, St: s0},
+				{Ev: svc(1, inf, 10, false, seqs(up...)), St: s0}}
+			for _, m := range []struct {
+				miss bool
+				oret uint64
+			}{{true, 1}, {false, 0}, {false, 1}} {
+				steps = append(steps,
+					step{Ev: fwd(1, inf, 10, false, m.miss, m.oret, seqs(up...)), St: s0},
+					step{Ev: fwd(0, 0, 10, false, m.miss, m.oret, seqs(up...)), St: s0},
+					step{Ev: fwd(inf, inf, 10, true, m.miss, m.oret, seqs(down...)), St: s0},
+					step{Ev: fwd(4, inf, 10, false, m.miss, m.oret, seqs(tail...)), St: s0},
+					head(m.miss, m.oret, false), head(m.miss, m.oret, true))
+			}
+			out = append(out, kit.Behaviour{Steps: steps})
+		}
+		// the reproduction of C10:forwarded-read-drops-sync-once-flag (known): row 2 of three
+		// committed rows is a SyncOnce row; read on the leader and on the non-leader node
+		sb := st(3, 3, 3, 0, 0, 0, []uint64{1, 2, 3}, []uint64{2})
+		withBar := map[string]any{"seqs": []uint64{1, 2, 3}, "bars": []uint64{2}}
+		lost := fwd(1, inf, 10, false, false, 0, withBar)
+		lost["alt"] = seqs(1, 2, 3)
+		out = append(out, kit.Behaviour{Steps: []step{
+			{Ev: map[string]any{"a": "Init", "cfg": map[string]any{"store": kind, "isr": []uint64{1, 2}, "minISR": 2,
+				"pre": preload{n: 3, c: 3, k: 2}.json()}}, St: sb},
+			{Ev: svc(1, inf, 10, false, withBar), St: sb},
+			{Ev: kit.Ev("Sync", "mode", "up", "start", 1, "end", 0, "lim", 5, "res", map[string]any{"seqs": []uint64{1, 3}}), St: sb},
+			{Ev: lost, St: sb},
+			{Ev: kit.Ev("SyncF", "mode", "up", "start", 1, "end", 0, "lim", 5, "miss", false, "oret", 0,
+				"res", map[string]any{"seqs": []uint64{1, 3}}, "alt", map[string]any{"seqs": []uint64{1, 2, 3}}), St: sb},
+		}})
+	}
 	for i := range out { // canonical JSON form, as behaviours loaded from a file
 		for j := range out[i].Steps {
 			out[i].Steps[j].Ev, _ = kit.Canon(out[i].Steps[j].Ev).(map[string]any)
@@ -737,7 +1099,19 @@ func drive(rep *kit.Report, rec *kit.Recorder, rng *rand.Rand, worlds map[string
 		w := worlds[kinds[tr%len(kinds)]]
 		isr := isrChoices[rng.Intn(len(isrChoices))]
 		minISR := 1 + rng.Intn(len(isr))
-		s, err := newSUT(w, isr, minISR)
+		var pre preload
+		if rng.Intn(2) == 0 { // a runtime loaded from a store with a durable tail above its checkpoint
+			pre.n = pick(rng, 1, 6)
+			pre.c = pick(rng, 0, pre.n)
+			if minISR <= 1 {
+				pre.c = pre.n
+			}
+			pre.b = pick(rng, 0, pre.c)
+			if rng.Intn(3) == 0 {
+				pre.k = pick(rng, 1, pre.n)
+			}
+		}
+		s, err := newSUT(w, isr, minISR, pre)
 		if err != nil {
 			rep.Infra("trace %d: %v", tr, err)
 			return
@@ -751,7 +1125,7 @@ func drive(rep *kit.Report, rec *kit.Recorder, rng *rand.Rand, worlds map[string
 		for i, n := range isr {
 			isrJSON[i] = uint64(n)
 		}
-		rec.Begin(map[string]any{"cfg": map[string]any{"store": w.kind, "isr": isrJSON, "minISR": minISR}}, specState(st0))
+		rec.Begin(map[string]any{"cfg": map[string]any{"store": w.kind, "isr": isrJSON, "minISR": minISR, "pre": pre.json()}}, specState(st0))
 		n := steps/2 + rng.Intn(steps)
 		for i := 0; i < n; i++ {
 			_, v, err := s.obs()
@@ -782,6 +1156,11 @@ func drive(rep *kit.Report, rec *kit.Recorder, rng *rand.Rand, worlds map[string
 				rep.Infra("trace %d step %d: %v", tr, i, err)
 				return
 			}
+			if want, lost := lostSyncOnce(ev, out.res, st); lost {
+				ev["res"] = out.res
+				reportFwdSyncOnce(rep, s, ev, out.res, want, map[string]any{"trace": tr, "step": i, "call": ev})
+				continue // a read: the state is unchanged, the step is left out of the trace
+			}
 			if d := kit.Diff(st["store"], map[string]any{"leo": st["leo"], "ckpt": st["ckpt"], "local": st["local"], "phys": st["phys"]}); d != "" {
 				ev["res"] = out.res
 				rep.Violate(prop, "state", fmt.Sprintf("store=%s after %s the store and the runtime disagree: %s (store=%s view=%s)",
@@ -792,6 +1171,32 @@ func drive(rep *kit.Report, rec *kit.Recorder, rng *rand.Rand, worlds map[string
 			rec.Step(ev, specState(st))
 		}
 	}
+}
+
+// lostSyncOnce recognises the known finding in the random driver, and nothing else: a forwarded
+// read whose reply names no SyncOnce row although rows it returned are SyncOnce rows of the store
+// (raw scan).  The sequences themselves are left to the trace validation.
+func lostSyncOnce(ev, res map[string]any, st map[string]any) (any, bool) {
+	if !(kit.Str(ev, "a") == "Read" && kit.Str(ev, "layer") == "fwd") {
+		return nil, false
+	}
+	got, _ := kit.Canon(res["bars"]).([]any)
+	seqs, _ := kit.Canon(res["seqs"]).([]any)
+	stored, _ := kit.Canon(st["bars"]).([]any)
+	isBar := map[int64]bool{}
+	for _, x := range stored {
+		isBar[kit.ToInt(x)] = true
+	}
+	want := []uint64{}
+	for _, x := range seqs {
+		if isBar[kit.ToInt(x)] {
+			want = append(want, uint64(kit.ToInt(x)))
+		}
+	}
+	if len(got) != 0 || len(want) == 0 {
+		return nil, false
+	}
+	return map[string]any{"seqs": res["seqs"], "bars": want}, true
 }
 
 // specState drops the store's own copy (checked equal to the view by the driver).
@@ -846,7 +1251,7 @@ func randomCall(rng *rand.Rand, s *sut, v ch.RetentionView) map[string]any {
 				continue
 			}
 			return kit.Ev("Apply", "b", b, "mt", mt)
-		case x < 75:
+		case x < 72:
 			if v.HW < 1 {
 				continue
 			}
@@ -856,34 +1261,23 @@ func randomCall(rng *rand.Rand, s *sut, v ch.RetentionView) map[string]any {
 				from = pick(rng, 1, v.HW)
 			}
 			return kit.Ev("Read", "layer", "store", "from", from, "mn", v.RetentionThroughSeq+1, "mx", v.HW, "lim", lim, "rev", rev)
-		case x < 90:
-			rev := rng.Intn(2) == 0
-			var from, mx uint64
-			if rev {
-				from = pick(rng, 1, v.LEO+2)
-				if from == v.LEO+2 || rng.Intn(4) == 0 {
+		case x < 84:
+			from, mx, rev := serviceReadArgs(rng, v)
+			return kit.Ev("Read", "layer", "service", "from", from, "mn", 0, "mx", mx, "lim", lim, "rev", rev)
+		case x < 93:
+			from, mx, rev := serviceReadArgs(rng, v)
+			if rng.Intn(3) == 0 { // the whole log / the latest page, the cap left to the leader
+				from, mx = uint64(rng.Intn(2)), inf
+				if rev {
 					from = inf
-				}
-				mx = from
-				if rng.Intn(2) == 0 {
-					mx = inf
-				}
-			} else {
-				from = pick(rng, 0, v.LEO+2)
-				if from == v.LEO+2 {
-					from = inf
-				}
-				switch rng.Intn(3) {
-				case 0:
-					mx = 0
-				case 1:
-					mx = inf
-				default:
-					mx = pick(rng, 0, v.LEO+1)
 				}
 			}
-			return kit.Ev("Read", "layer", "service", "from", from, "mn", 0, "mx", mx, "lim", lim, "rev", rev)
-		case x < 94:
+			miss, oret := forwardMode(rng, s)
+			return kit.Ev("Read", "layer", "fwd", "from", from, "mn", 0, "mx", mx, "lim", lim, "rev", rev, "miss", miss, "oret", oret)
+		case x < 95:
+			miss, oret := forwardMode(rng, s)
+			return kit.Ev("HeadF", "miss", miss, "oret", oret, "batch", rng.Intn(2) == 0)
+		case x < 97:
 			return kit.Ev("Head")
 		default:
 			if syncRead == nil {
@@ -897,6 +1291,45 @@ func randomCall(rng *rand.Rand, s *sut, v ch.RetentionView) map[string]any {
 			return kit.Ev("Sync", "mode", mode, "start", start, "end", end, "lim", lim)
 		}
 	}
+}
+
+// serviceReadArgs draws a service-layer request the way the callers issue them.
+func serviceReadArgs(rng *rand.Rand, v ch.RetentionView) (from, mx uint64, rev bool) {
+	rev = rng.Intn(2) == 0
+	if rev {
+		from = pick(rng, 1, v.LEO+2)
+		if from == v.LEO+2 || rng.Intn(4) == 0 {
+			from = inf
+		}
+		mx = from
+		if rng.Intn(2) == 0 {
+			mx = inf
+		}
+		return
+	}
+	from = pick(rng, 0, v.LEO+2)
+	if from == v.LEO+2 {
+		from = inf
+	}
+	switch rng.Intn(3) {
+	case 0:
+		mx = 0
+	case 1:
+		mx = inf
+	default:
+		mx = pick(rng, 0, v.LEO+1)
+	}
+	return
+}
+
+// forwardMode draws the leader's lookup mode and the origin's record for a forwarded read.
+func forwardMode(rng *rand.Rand, s *sut) (miss bool, oret uint64) {
+	cur, _ := s.w.src.ResolveChannelMeta(context.Background(), s.id)
+	oret = cur.RetentionThroughSeq
+	if miss = rng.Intn(2) == 0; !miss && rng.Intn(2) == 0 {
+		oret = pick(rng, 0, cur.RetentionThroughSeq)
+	}
+	return
 }
 
 // ---- entry point -----------------------------------------------------------------------
